@@ -18,17 +18,24 @@
 (* The ghost `acc` (exact msat total of accepted losses in the velocity     *)
 (* window) is folded along each session.                                    *)
 (* IOEnv: OC_RECS (harness records), OC_CASES (the abstract sessions),      *)
-(* OC_REPORT, OC_WRAP ("true": the code's arithmetic wraps, HEAD behaviour) *)
+(* OC_REPORT, OC_WRAP ("true": the code's arithmetic wraps), OC_FLAT ("true":*)
+(* every signable input is charged a P2WPKH witness) - the switches of       *)
+(* Onchain!Step, only conformance depends on them, never a violation.        *)
+(* For the steps the harness also had SIGNED by the real node (group G10)    *)
+(* the measured weight of the finalised transaction must lie between the     *)
+(* smallest and largest Onchain!FinalWeight: the BIP-141 formula the         *)
+(* reference's fee bound rests on is validated against real transactions     *)
+(* (a failure is a concretisation mismatch = the run's self-test fails).     *)
 (***************************************************************************)
 EXTENDS Onchain, Json, IOUtils, SequencesExt
 
 Recs  == ndJsonDeserialize(IOEnv.OC_RECS)
 Cases == ndJsonDeserialize(IOEnv.OC_CASES)
-Wrap  == IOEnv.OC_WRAP = "true"
+Sws   == Sw(IOEnv.OC_WRAP = "true", IOEnv.OC_FLAT = "true")
 
 \* logged concrete case -> the shape Onchain works on (drops log-only fields)
 Conc(st) ==
-  [ pol |-> st.c.pol, ver |-> st.c.ver, base |-> st.c.base, txw |-> st.c.txw, ins |-> st.c.ins,
+  [ pol |-> st.c.pol, ver |-> st.c.ver, base |-> st.c.base, txw |-> st.c.txw, fw |-> st.c.fw, ins |-> st.c.ins,
     outs |-> st.c.outs,
     chans |-> [j \in DOMAIN st.c.chans |->
                  [val |-> st.c.chans[j].val, outbound |-> st.c.chans[j].outbound, push |-> st.c.chans[j].push,
@@ -43,6 +50,7 @@ SameConc(x, y) ==
   /\ Len(x.ins) = Len(y.ins) /\ Len(x.outs) = Len(y.outs) /\ Len(x.chans) = Len(y.chans)
   /\ \A i \in DOMAIN x.ins : /\ BEq(x.ins[i].v, y.ins[i].v) /\ x.ins[i].sw = y.ins[i].sw
                              /\ x.ins[i].st = y.ins[i].st /\ x.ins[i].uck = y.ins[i].uck
+                             /\ x.ins[i].ss = y.ins[i].ss
   /\ \A k \in DOMAIN x.outs : LET a == x.outs[k] b == y.outs[k] IN
         /\ BEq(a.v, b.v) /\ a.path = b.path /\ a.own = b.own /\ a.st = b.st /\ a.inlist = b.inlist
         /\ a.xin = b.xin /\ a.ch = b.ch /\ (a.ch # 0 => a.fs = b.fs)
@@ -67,8 +75,8 @@ JStep(id, k, ab, st, acc) ==
       velb == st.velb                       \* window total as of the time of the request
       v1   == V1(st)
       a2   == A2(st)
-      exp  == Step(c, velb, Wrap)
-      exp2 == StepApprove(c, velb, Wrap, ab.approve)
+      exp  == Step(c, velb, Sws)
+      exp2 == StepApprove(c, velb, Sws, ab.approve)
       rules == Rules(c, acc0)
       prim  == PrimaryRules(c, acc0)
       vio1 == Judge(c, acc0, v1)
@@ -83,9 +91,11 @@ JStep(id, k, ab, st, acc) ==
        e1 |-> v1, e2 |-> a2, exp1 |-> exp.v, exp2 |-> exp2,
        vio1 |-> SetToSeq(vio1), vio2 |-> SetToSeq(vio2),
        kinds |-> [j \in DOMAIN ab.outs |-> ab.outs[j].kind],
+       ins |-> [j \in DOMAIN ab.ins |-> ab.ins[j].kind],
+       signed |-> c.fw >= 0,
        nonben |-> SetToSeq({j - 1 : j \in NonBen(c)}),
        conf |-> st.skipped \/ (conf1 /\ (a2.res = "skipped" \/ conf2)),
-       same |-> SameConc(Facts(ab), c) /\ SameScripts(ab, st),
+       same |-> SameConc(Facts(ab), c) /\ SameScripts(ab, st) /\ FinalWeightOK(c) /\ (ab.sign => c.fw >= 0 \/ st.skipped),
        panic |-> v1.t = "panic" \/ a2.res = "panic",
        stricter |-> refused /\ rules = {},
        \* the rule that alone makes the case must-refuse (see PrimaryRules) and whether the real code refused
@@ -113,7 +123,7 @@ Count(P(_)) == FoldLeft(LAMBDA n, j : IF P(j) THEN n + 1 ELSE n, 0, J)
 Pick(P(_), lim) == LET s == SelectSeq(J, P) IN SubSeq(s, 1, IF Len(s) < lim THEN Len(s) ELSE lim)
 Brief(j) == [id |-> j.id, step |-> j.step, grp |-> j.grp, fee |-> j.fee, fam |-> j.fam, e1 |-> j.e1, e2 |-> j.e2,
              exp1 |-> j.exp1, exp2 |-> j.exp2, vio1 |-> j.vio1, vio2 |-> j.vio2, kinds |-> j.kinds,
-             nonben |-> j.nonben, same |-> j.same]
+             nonben |-> j.nonben, same |-> j.same, ins |-> j.ins]
 Briefs(s) == [i \in DOMAIN s |-> Brief(s[i])]
 
 IsVio(j) == Len(j.vio1) > 0 \/ Len(j.vio2) > 0
@@ -133,6 +143,7 @@ Report ==
     ndivergent  |-> Count(LAMBDA j : ~j.conf),
     divergences |-> Briefs(Pick(LAMBDA j : ~j.conf, 40)),
     nmismatch   |-> Count(LAMBDA j : ~j.same),
+    nsigned     |-> Count(LAMBDA j : j.signed),
     mismatches  |-> Briefs(Pick(LAMBDA j : ~j.same, 20)),
     stricter    |-> Count(LAMBDA j : j.stricter),
     unknown_excess  |-> Count(LAMBDA j : j.unkx),
